@@ -5,9 +5,9 @@ from ..gen.programs import program_text, cycle_info
 from .. import progcheck
 
 FAMILIES = {
-    "quick": [("F2.3", 48), ("F3.2", 96), ("F1.2", 96), ("F1.3s", 24), ("F2.2", 8), ("F3.1", 8), ("F1.1", 8),
+    "quick": [("FC3", 48), ("F2.3", 48), ("F3.2", 96), ("F1.2", 96), ("F1.3s", 24), ("F2.2", 8), ("F3.1", 8), ("F1.1", 8),
               ("F1.1dup", 4), ("F2.1", 2)],
-    "thorough": [("F3.3", 512), ("F2.4", 256), ("F1.3", 1024), ("F2.3", 48), ("F3.2", 96), ("F1.2", 128),
+    "thorough": [("FC3g", 256), ("FC3", 48), ("F3.3", 512), ("F2.4", 256), ("F1.3", 1024), ("F2.3", 48), ("F3.2", 96), ("F1.2", 128),
                  ("F1.3s", 48), ("F2.2", 8), ("F3.1", 8), ("F1.1", 8), ("F1.1dup", 4), ("F2.1", 2)],
 }
 
@@ -93,7 +93,7 @@ class C01(ProgramProp):
                  "pipeline, each compared with an independent possible-world (well-founded model) enumerator")
     rule = ("every program of families F1 (propositional, <=2 rules all bodies, 3 rules single-literal bodies; "
             "thorough adds all 3-rule programs), F2 (ADs, k statements from an 18-statement menu), F3/F4 "
-            "(first-order over {c,d}, k rules from a 22-rule menu x 4 fact sets) with query/evidence decorations; "
+            "(first-order over {c,d}, k rules from a 25-rule menu x 4 fact sets), FC3 (every positive-cycle structure over 3 derived atoms, all query orders; thorough adds guarded edges) with query/evidence decorations; "
             "states = programs, transitions = possible worlds enumerated by the reference; non-trivial = at "
             "least one probabilistic choice and two worlds of non-zero probability")
     assumptions = ["programs whose ground dependency graph has a cycle through negation are routed to C02",
